@@ -420,17 +420,16 @@ def mkDictL (ps : KV) : RL ObjL :=
 /-! ## `list(...)`: iterators among the arguments are opened, each through `limit_iterable`; the
 flattened stream is the `Iterable()` argument of `to_list` -/
 
-/-- concatenation of streams with exception tails: the first tail ends the stream -/
-def catStreams : List (VL × Option LErr) → VL × Option LErr
-  | [] => ([], none)
-  | (xs, some e) :: _ => (xs, some e)
-  | (xs, none) :: r => let t := catStreams r; (xs ++ t.1, t.2)
-
 /-- two streams one after the other: the tail of the first ends the stream -/
 def catS (a b : VL × Option LErr) : VL × Option LErr :=
   match a.2 with
   | some e => (a.1, some e)
   | none => (a.1 ++ b.1, b.2)
+
+/-- concatenation of streams with exception tails: the first tail ends the stream -/
+def catStreams : List (VL × Option LErr) → VL × Option LErr
+  | [] => ([], none)
+  | s :: r => catS s (catStreams r)
 
 mutual
 /-- `rec(seq)` for one element of the sequence: an iterator is opened through `limit_iterable` -/
@@ -477,20 +476,26 @@ def keyQuota (c : ECfg) (L : Lim) : VL → List LErr
     | .ok _ => keyQuota c L r
     | .error e => e :: keyQuota c L r
 
+/-- the exception a sort raises, given every exception its comparisons can raise: none; the one they all
+    agree on; which of several different ones comes first depends on the sort algorithm (no prediction) -/
+def sortErr : List LErr → RL (Option LErr)
+  | [] => .ok none
+  | e :: rest =>
+    if e == .base .outOfDomain || rest.any (· != e) then .error (.base .outOfDomain) else .ok (some e)
+
 def sortKeyedL (c : ECfg) (L : Lim) (asc : Bool) (items : VL) (keys : List (Except LErr Value)) :
     RL (VL × Option LErr) :=
   if items.length ≤ 1 then .ok (items, none)
-  else
-    let es := errsOfL keys
+  else do
+    let r ← sortErr (errsOfL keys
       ++ (match Seq.keysComparable (oksOfL keys) with | some e => [LErr.base (Err.ofSeq e)] | none => [])
-      ++ keyQuota c L (oksOfL keys)
-    match es with
-    | [] =>
+      ++ keyQuota c L (oksOfL keys))
+    match r with
+    | none =>
       let sorted := ((oksOfL keys).zip items).mergeSort
         (fun p q => Seq.sortLe Seq.ltT Seq.gtT [(id, asc)] p.1 q.1)
-      .ok (sorted.map (·.2), none)
-    | e :: rest =>
-      if e == .base .outOfDomain || rest.any (· != e) then .error (.base .outOfDomain) else .ok ([], some e)
+      pure (sorted.map (·.2), none)
+    | some e => pure ([], some e)
 
 def keysL (f : Value → RL Value) : VL → RL (List (Except LErr Value))
   | [] => .ok []
@@ -545,197 +550,125 @@ def dictItemsL (c : ECfg) (L : Lim) : KV → VL → RL KV
     measure L (plainDictSize c (Seq.dOfPairs (p :: acc).reverse))
     dictItemsL c L (p :: acc) r
 
+/-- the common shape of a method over a collection: the receiver is type-checked when the overload is
+    mapped, the other eager arguments are evaluated (`pre`), then the receiver is converted (`Iterable()`:
+    measured and limited), then the remaining conversions and the payload run (`k`) -/
+def withIter {β : Type} (c : ECfg) (L : Lim) (bad : Eval.Err) (r : ObjL) (pre : RL β)
+    (k : β → VL × Option LErr → RL ObjL) : RL ObjL :=
+  match toIterL r with
+  | none => .error (.base bad)
+  | some _ => do let a ← pre; let s ← bindIter c L r; k a s
+
+/-- an `int` argument (`take`, `skip`) -/
+def intArg (bad : Eval.Err) (no : ObjL) : RL Int :=
+  match no with
+  | .val (.int k) => .ok k
+  | .val (.bool _) => .error (.base .outOfDomain)
+  | _ => if isLazyL no then .error (.base .outOfDomain) else .error (.base bad)
+
+/-- the names `unpack` is given -/
+def unpackNames (ev : EvL) (C : Ctx) (bad : Eval.Err) (names : List Expr) : RL (VL × List Name) :=
+  if names.any (fun a => match a with | .lit (.str _) => false | .lit _ => true | _ => false) then .error (.base bad)
+  else do
+    let ns ← evalListL ev C names
+    let strs := ns.filterMap fun v => match v with | .str s => some s | _ => none
+    if strs.length != ns.length then .error (.base bad) else pure (ns, strs)
+
+/-- a definite exception becomes "no prediction" -/
+def hideBase (x : RL α) : RL α :=
+  match x with
+  | .error (.base _) => .error (.base .outOfDomain)
+  | y => y
+
 /-- methods: `receiver.f(args)`; the receiver has been bound to `#operator_.` already -/
 def callMethodL (c : ECfg) (L : Lim) (ev : EvL) (C : Ctx) (bad : Eval.Err) (r : ObjL) (f : Fn)
     (args : List Expr) : RL ObjL :=
   match f, args with
-  | .select, [l] =>
-    match toIterL r with
-    | none => .error (.base bad)
-    | some _ => do
-      let (xs, e) ← bindIter c L r
-      let s ← mapL (fun x => lamVL ev C l [x]) xs e; pure (.lazy s.1 s.2)
-  | .where_, [l] =>
-    match toIterL r with
-    | none => .error (.base bad)
-    | some _ => do
-      let (xs, e) ← bindIter c L r
-      let s ← filterL (fun x => lamBL ev C l [x]) xs e; pure (.lazy s.1 s.2)
-  | .selectMany, [l] =>
-    match toIterL r with
-    | none => .error (.base bad)
-    | some _ => do
-      let (xs, e) ← bindIter c L r
-      let s ← flatMapL (lamManyL ev C l) xs e; pure (.lazy s.1 s.2)
-  | .takeWhile, [l] =>
-    match toIterL r with
-    | none => .error (.base bad)
-    | some _ => do
-      let (xs, e) ← bindIter c L r
-      let s ← takeWhileL (fun x => lamBL ev C l [x]) xs e; pure (.lazy s.1 s.2)
-  | .skipWhile, [l] =>
-    match toIterL r with
-    | none => .error (.base bad)
-    | some _ => do
-      let (xs, e) ← bindIter c L r
-      let s ← dropWhileL (fun x => lamBL ev C l [x]) xs e; pure (.lazy s.1 s.2)
-  | .orderBy, [l] =>
-    match toIterL r with
-    | none => .error (.base bad)
-    | some _ => do
-      let (xs, e) ← bindIter c L r
-      match e with
+  | .select, [l] => withIter c L bad r (pure ()) fun _ s => do
+      let t ← mapL (fun x => lamVL ev C l [x]) s.1 s.2; pure (.lazy t.1 t.2)
+  | .where_, [l] => withIter c L bad r (pure ()) fun _ s => do
+      let t ← filterL (fun x => lamBL ev C l [x]) s.1 s.2; pure (.lazy t.1 t.2)
+  | .selectMany, [l] => withIter c L bad r (pure ()) fun _ s => do
+      let t ← flatMapL (lamManyL ev C l) s.1 s.2; pure (.lazy t.1 t.2)
+  | .takeWhile, [l] => withIter c L bad r (pure ()) fun _ s => do
+      let t ← takeWhileL (fun x => lamBL ev C l [x]) s.1 s.2; pure (.lazy t.1 t.2)
+  | .skipWhile, [l] => withIter c L bad r (pure ()) fun _ s => do
+      let t ← dropWhileL (fun x => lamBL ev C l [x]) s.1 s.2; pure (.lazy t.1 t.2)
+  | .orderBy, [l] => withIter c L bad r (pure ()) fun _ s =>
+      match s.2 with
       | some er => pure (.ordered [] (some er))
       | none => do
-        let ks ← if xs.length ≤ 1 then pure [] else keysL (fun x => lamVL ev C l [x]) xs
-        let s ← sortKeyedL c L true xs ks
-        pure (.ordered s.1 s.2)
-  | .orderByDescending, [l] =>
-    match toIterL r with
-    | none => .error (.base bad)
-    | some _ => do
-      let (xs, e) ← bindIter c L r
-      match e with
+        let ks ← if s.1.length ≤ 1 then pure [] else keysL (fun x => lamVL ev C l [x]) s.1
+        let t ← sortKeyedL c L true s.1 ks
+        pure (.ordered t.1 t.2)
+  | .orderByDescending, [l] => withIter c L bad r (pure ()) fun _ s =>
+      match s.2 with
       | some er => pure (.ordered [] (some er))
       | none => do
-        let ks ← if xs.length ≤ 1 then pure [] else keysL (fun x => lamVL ev C l [x]) xs
-        let s ← sortKeyedL c L false xs ks
-        pure (.ordered s.1 s.2)
-  | .any, [] =>
-    match toIterL r with
-    | none => .error (.base bad)
-    | some _ => do
-      let (xs, e) ← bindIter c L r
-      let hit ← findL (fun _ => .ok true) 0 xs e; pure (.val (.bool hit.isSome))
-  | .any, [l] =>
-    match toIterL r with
-    | none => .error (.base bad)
-    | some _ => do
-      let (xs, e) ← bindIter c L r
-      let hit ← findL (fun x => lamBL ev C l [x]) 0 xs e; pure (.val (.bool hit.isSome))
-  | .all, [] =>
-    match toIterL r with
-    | none => .error (.base bad)
-    | some _ => do
-      let (xs, e) ← bindIter c L r
-      let hit ← findL (fun x => .ok (!truthy x)) 0 xs e; pure (.val (.bool hit.isNone))
-  | .all, [l] =>
-    match toIterL r with
-    | none => .error (.base bad)
-    | some _ => do
-      let (xs, e) ← bindIter c L r
-      let hit ← findL (fun x => do let b ← lamBL ev C l [x]; pure (!b)) 0 xs e
+        let ks ← if s.1.length ≤ 1 then pure [] else keysL (fun x => lamVL ev C l [x]) s.1
+        let t ← sortKeyedL c L false s.1 ks
+        pure (.ordered t.1 t.2)
+  | .any, [] => withIter c L bad r (pure ()) fun _ s => do
+      let hit ← findL (fun _ => .ok true) 0 s.1 s.2; pure (.val (.bool hit.isSome))
+  | .any, [l] => withIter c L bad r (pure ()) fun _ s => do
+      let hit ← findL (fun x => lamBL ev C l [x]) 0 s.1 s.2; pure (.val (.bool hit.isSome))
+  | .all, [] => withIter c L bad r (pure ()) fun _ s => do
+      let hit ← findL (fun x => .ok (!truthy x)) 0 s.1 s.2; pure (.val (.bool hit.isNone))
+  | .all, [l] => withIter c L bad r (pure ()) fun _ s => do
+      let hit ← findL (fun x => do let b ← lamBL ev C l [x]; pure (!b)) 0 s.1 s.2
       pure (.val (.bool hit.isNone))
-  | .indexWhere, [l] =>
-    match toIterL r with
-    | none => .error (.base bad)
-    | some _ => do
-      let (xs, e) ← bindIter c L r
-      let hit ← findL (fun x => lamBL ev C l [x]) 0 xs e
+  | .indexWhere, [l] => withIter c L bad r (pure ()) fun _ s => do
+      let hit ← findL (fun x => lamBL ev C l [x]) 0 s.1 s.2
       pure (.val (.int (match hit with | some i => i | none => -1)))
-  | .toDict, [k] =>
-    match toIterL r with
-    | none => .error (.base bad)
-    | some _ => do
-      let (xs, e) ← bindIter c L r
-      let d ← toDictL c L (fun x => lamVL ev C k [x]) (fun x => .ok x) [] xs e; pure (.val (.dict d))
-  | .toDict, [k, v] =>
-    match toIterL r with
-    | none => .error (.base bad)
-    | some _ => do
-      let (xs, e) ← bindIter c L r
-      let d ← toDictL c L (fun x => lamVL ev C k [x]) (fun x => lamVL ev C v [x]) [] xs e
+  | .toDict, [k] => withIter c L bad r (pure ()) fun _ s => do
+      let d ← toDictL c L (fun x => lamVL ev C k [x]) (fun x => .ok x) [] s.1 s.2; pure (.val (.dict d))
+  | .toDict, [k, v] => withIter c L bad r (pure ()) fun _ s => do
+      let d ← toDictL c L (fun x => lamVL ev C k [x]) (fun x => lamVL ev C v [x]) [] s.1 s.2
       pure (.val (.dict d))
-  | .aggregate, [l] =>
-    match toIterL r with
-    | none => .error (.base bad)
-    | some _ => do
-      let (xs, e) ← bindIter c L r
-      match xs, e with
-      | [], none => .error (.base .type)
+  | .aggregate, [l] => withIter c L bad r (pure ()) fun _ s =>
+      match s.1, s.2 with
+      | [], none => .error (.base .type)                -- reduce() of empty iterable with no initial value
       | [], some er => .error er
       | x :: xs, e => do let v ← foldL (fun a b => lamVL ev C l [a, b]) x xs e; pure (.val v)
   | .aggregate, [l, seed] =>
-    match toIterL r with
-    | none => .error (.base bad)
-    | some _ => do
-      let so ← ev C seed
-      let s ← toVL so
-      let (xs, e) ← bindIter c L r
-      measure L (sizeofV c s)
-      let v ← foldL (fun a b => lamVL ev C l [a, b]) s xs e
+    withIter c L bad r (do let so ← ev C seed; toVL so) fun sd s => do
+      measure L (sizeofV c sd)
+      let v ← foldL (fun a b => lamVL ev C l [a, b]) sd s.1 s.2
       pure (.val v)
-  | .sum, [] =>
-    match toIterL r with
-    | none => .error (.base bad)
-    | some _ => do
-      let (xs, e) ← bindIter c L r
-      match xs, e with
+  | .sum, [] => withIter c L bad r (pure ()) fun _ s =>
+      match s.1, s.2 with
       | [], none => .error (.base .type)
       | [], some er => .error er
       | x :: xs, e => do let v ← foldL (binCall c L .add) x xs e; pure (.val v)
   | .sum, [init] =>
-    match toIterL r with
-    | none => .error (.base bad)
-    | some _ => do
-      let io ← ev C init
-      let i ← toVL io
-      let (xs, e) ← bindIter c L r
+    withIter c L bad r (do let io ← ev C init; toVL io) fun i s => do
       measure L (sizeofV c i)
-      let v ← foldL (binCall c L .add) i xs e
+      let v ← foldL (binCall c L .add) i s.1 s.2
       pure (.val v)
-  | .first, [] =>
-    match toIterL r with
-    | none => .error (.base bad)
-    | some _ => do
-      let (xs, e) ← bindIter c L r
-      match xs, e with
+  | .first, [] => withIter c L bad r (pure ()) fun _ s =>
+      match s.1, s.2 with
       | x :: _, _ => pure (.val x)
       | [], some er => .error er
       | [], none => .error (.base .stopIteration)
   | .first, [d] =>
-    match toIterL r with
-    | none => .error (.base bad)
-    | some _ => do
-      let dobj ← ev C d
-      let (xs, e) ← bindIter c L r
+    withIter c L bad r (ev C d) fun dobj s => do
       measure L (objSz c dobj)
-      match xs, e with
+      match s.1, s.2 with
       | x :: _, _ => pure (.val x)
       | [], some er => .error er
       | [], none => pure dobj
-  | .toList, [] =>
-    match toIterL r with
-    | none => .error (.base bad)
-    | some _ => do
-      let s ← bindIter c L r
+  | .toList, [] => withIter c L bad r (pure ()) fun _ s => do
       let xs ← drain s; pure (.val (.tuple xs))
   | .take, [n] =>
-    match toIterL r with
-    | none => .error (.base bad)
-    | some _ => do
-      let no ← ev C n
-      match no with
-      | .val (.int k) => do
-        let (xs, e) ← bindIter c L r
-        measure L (sizeofV c (.int k))
-        if k < 0 then .error (.base .value)
-        else pure (.lazy (xs.take k.toNat) (if k.toNat ≤ xs.length then none else e))
-      | .val (.bool _) => .error (.base .outOfDomain)
-      | _ => if isLazyL no then .error (.base .outOfDomain) else .error (.base bad)
+    withIter c L bad r (do let no ← ev C n; intArg bad no) fun k s => do
+      measure L (sizeofV c (.int k))
+      if k < 0 then .error (.base .value)
+      else pure (.lazy (s.1.take k.toNat) (if k.toNat ≤ s.1.length then none else s.2))
   | .skip, [n] =>
-    match toIterL r with
-    | none => .error (.base bad)
-    | some _ => do
-      let no ← ev C n
-      match no with
-      | .val (.int k) => do
-        let (xs, e) ← bindIter c L r
-        measure L (sizeofV c (.int k))
-        if k < 0 then .error (.base .value)
-        else pure (.lazy (xs.drop k.toNat) e)
-      | .val (.bool _) => .error (.base .outOfDomain)
-      | _ => if isLazyL no then .error (.base .outOfDomain) else .error (.base bad)
+    withIter c L bad r (do let no ← ev C n; intArg bad no) fun k s => do
+      measure L (sizeofV c (.int k))
+      if k < 0 then .error (.base .value)
+      else pure (.lazy (s.1.drop k.toNat) s.2)
   | .len, [] =>
     match r with
     | .val (.tuple l) | .val (.list l) => do
@@ -767,29 +700,20 @@ def callMethodL (c : ECfg) (L : Lim) (ev : EvL) (C : Ctx) (bad : Eval.Err) (r : 
       if hashable kv then pure (.val ((Seq.dGet d kv).getD dv)) else .error (.base .type)
     | _ => .error (.base bad)
   | .unpack, names =>
-    match toIterL r with
-    | none => .error (.base bad)
-    | some _ =>
-      if names.any (fun a => match a with | .lit (.str _) => false | .lit _ => true | _ => false) then .error (.base bad)
-      else do
-      let ns ← evalListL ev C names
-      let strs := ns.filterMap fun v => match v with | .str s => some s | _ => none
-      if strs.length != ns.length then .error (.base bad)
-      else do
-        let (xs, e) ← bindIter c L r
-        measureEach L (ns.map (sizeofV c))
-        let n := strs.length
-        -- `islice(sequence, len(args) + 1)` reaches the end of a source that raises
-        match (if xs.length < n + 1 then e else none) with
-        | some er => .error er
-        | none =>
-        if n = 0 then
-          -- `chain(lst, sequence)` consumes the rest: the limiter raises at item N + 1
-          match e with
-          | some er => if isLim er then .error er else pure (.ctx ({ vars := bindNamed [] (bindPos 1 xs) } :: C))
-          | none => pure (.ctx ({ vars := bindNamed [] (bindPos 1 xs) } :: C))
-        else if (xs.take (n + 1)).length != n then .error (.base .value)
-        else pure (.ctx ({ vars := bindNamed [] (strs.zip xs) } :: C))
+    withIter c L bad r (unpackNames ev C bad names) fun nm s => do
+      measureEach L (nm.1.map (sizeofV c))
+      let n := nm.2.length
+      -- `islice(sequence, len(args) + 1)` reaches the end of a source that raises
+      match (if s.1.length < n + 1 then s.2 else none) with
+      | some er => .error er
+      | none =>
+      if n = 0 then
+        -- `chain(lst, sequence)` consumes the rest: the limiter raises at item N + 1
+        match s.2 with
+        | some er => if isLim er then .error er else pure (.ctx ({ vars := bindNamed [] (bindPos 1 s.1) } :: C))
+        | none => pure (.ctx ({ vars := bindNamed [] (bindPos 1 s.1) } :: C))
+      else if (s.1.take (n + 1)).length != n then .error (.base .value)
+      else pure (.ctx ({ vars := bindNamed [] (nm.2.zip s.1) } :: C))
   | .let_, _ | .with_, _ | .def_, _ | .list, _ | .dict, _ => .error (.base .unknownMethod)
   | _, _ => .error (.base bad)
 
@@ -841,14 +765,17 @@ def callFnL (c : ECfg) (L : Lim) (ev : EvL) (C : Ctx) (f : Fn) (args : List Expr
       match toIterL o with
       | none => .error (.base .noFunction)
       | some _ => do
-        let (xs, tl) ← bindIter c L o
-        match tl with
+        let s ← bindIter c L o
+        match s.2 with
         | some (.base b) => .error (.base b)
-        | _ => do
-          let ps ← dictItemsL c L [] xs
-          match tl with
-          | some er => .error er
-          | none => mkDictL ps
+        | some er => do
+          -- the limiter will raise after these items; an ill-formed item among them raises before that, but
+          -- `Eval` would look at the (unknown) end of the uncut source first: no prediction
+          let _ ← hideBase (dictItemsL c L [] s.1)
+          .error er
+        | none => do
+          let ps ← dictItemsL c L [] s.1
+          mkDictL ps
     | _, _ => .error (.base .outOfDomain)
   | .len | .any | .all =>
     if !kw.isEmpty then .error (.base .outOfDomain)
@@ -964,6 +891,27 @@ def afterWalk (ok : Bool) (w : RL Unit) : RL Unit :=
   | .ok _ => .ok ()
   | .error e => if isLim e && !ok then .error (.base .outOfDomain) else .error e
 
+/-- the items `#iter(obj)` lets through at the top level: walked in order, then the tail of the source; the
+    converted list is what `#finalize` returns (measured by `runner.call`) -/
+def finIter (c : ECfg) (L : Lim) (s : VL × Option LErr) : RL Final :=
+  match s.2 with
+  | some (.base b) => .error (.base b)
+  | tl => do
+    afterWalk (Seq.finOkL s.1) (do walkL c L none s.1; match tl with | some er => .error er | none => pure ())
+    if Seq.finOkL s.1 then do
+      measure L (outSize c (.list s.1))
+      pure (.data (.list s.1))
+    else .error (.base .type)
+
+/-- a result that is no sequence -/
+def finVal (c : ECfg) (L : Lim) (v : Value) : RL Final := do
+  measure L (sizeofV c v)                      -- `#finalize(obj)`
+  afterWalk (Seq.finOk v) (walkV c L v)
+  if Seq.finOk v then do
+    measure L (outSize c v)
+    pure (.data v)
+  else .error (.base .type)
+
 def finaliseL (c : ECfg) (L : Lim) (o : ObjL) : RL Final :=
   match o with
   | .ctx _ => do measure L (some (objSzOf c)); pure .context
@@ -971,24 +919,11 @@ def finaliseL (c : ECfg) (L : Lim) (o : ObjL) : RL Final :=
     match toIterL o with
     | some _ => do
       measure L (objSz c o)                    -- `#finalize(obj)`
-      let (xs, tl) ← bindIter c L o            -- `#iter(obj)`
-      match tl with
-      | some (.base b) => .error (.base b)
-      | _ => do
-        afterWalk (Seq.finOkL xs) (do walkL c L none xs; match tl with | some er => .error er | none => pure ())
-        if Seq.finOkL xs then do
-          measure L (outSize c (.list xs))
-          pure (.data (.list xs))
-        else .error (.base .type)
+      let s ← bindIter c L o                   -- `#iter(obj)`
+      finIter c L s
     | none =>
       match o with
-      | .val v => do
-        measure L (sizeofV c v)
-        afterWalk (Seq.finOk v) (walkV c L v)
-        if Seq.finOk v then do
-          measure L (outSize c v)
-          pure (.data v)
-        else .error (.base .type)
+      | .val v => finVal c L v
       | _ => .error (.base .outOfDomain)
 
 /-- `engine(text).evaluate(data=doc)` with `yaql.limitIterators = L.N`, `yaql.memoryQuota = L.Q` -/
